@@ -20,7 +20,7 @@ def classify(rec, v):
 def run(out, tier):
     wd = common.workdir("c06")
     try:
-        recs, texts, verdicts = render.run_render(out, "C06", "grad", tier, 1600, 20000, wd=wd, max_nodes=7,
+        recs, texts, verdicts = render.run_render(out, "C06", "grad", tier, 1600, 12000, wd=wd, max_nodes=7,
                                                   keep=no_stroke_no_clip, module="TraceGrad", cfg="TraceGrad.cfg")
         cov = out.coverage
         cov["distinct_nontrivial"] = cov["parts"]["verdict_histogram"].get("ok:gradient", 0)
